@@ -34,12 +34,14 @@ func propC05(ch core.Chooser, st *core.Stats) error {
 	}
 	// phase 1: fill segments and make them eligible (overwrites and deletes of hot keys)
 	delw := core.PickInt(ch, "prefill_delw", []int{0, 0, 1, 4})
+	maxPrefill := core.Scale(30, 120)
 	if core.Pct(ch, "hazard_prefix", 50) {
 		if err := s.hazardPrefill(); err != nil {
 			return err
 		}
+		maxPrefill = 6 // keep the constructed shape mostly intact
 	}
-	if err := s.runOps(ch.Int("prefill", 0, core.Scale(30, 120)), []int{8, delw, 0, 0, 0, 0, 0}); err != nil {
+	if err := s.runOps(ch.Int("prefill", 0, maxPrefill), []int{8, delw, 0, 0, 0, 0, 0}); err != nil {
 		return err
 	}
 	firstCompact := s.fs.LogLen()
